@@ -389,6 +389,9 @@ func (p *parser) unary() Expr {
 	if p.accept("^") {
 		return &EUnary{"^", p.unary()}
 	}
+	if p.accept("*") {
+		return &EUnary{"*", p.unary()}
+	}
 	return p.postfix()
 }
 func (p *parser) postfix() Expr {
